@@ -1,6 +1,23 @@
 (* C03 — rule kinds determine what objects a model contains. *)
-From TxV Require Import Core.Base Model.Kinds.
+From TxV Require Import Core.Base Model.Kinds Proofs.KindsProofs.
 
-Example C03_smoke : exists s, determine_types [ {| r_attrs := true; r_body := Body Term |} ] = Some s /\ types s 0 = KCommon.
+(* The multi-pass fixpoint of _determine_rule_types terminates (the model's fuel, |rules|+1
+   passes and |rules|+1 nested calls, is never exhausted) and assigns every rule the
+   documented kind: common iff it has assignments; otherwise abstract iff it references a rule
+   that is not a match rule (least fixpoint over arbitrary, possibly cyclic, reference graphs);
+   otherwise match.  For ALL grammars. *)
+Theorem C03_kinds : forall g : list rule,
+  exists s, determine_types g = Some s /\ forall x, kind_spec g x (types s x).
+Proof. intro g. destruct (kinds_correct g) as [s [H1 [H2 _]]]. exists s. split; assumption. Qed.
+Print Assumptions C03_kinds.
+
+(* non-vacuity: A: B | C;  B: '(' A ')' | M;  C: x=INT;  M: 'm';  — A and B abstract through the cycle *)
+Example C03_kinds_example :
+  let g := [ {| r_attrs := false; r_body := Body (Choice [Ref 1; Ref 2]) |};
+             {| r_attrs := false; r_body := Body (Choice [Seq [Term; Ref 0; Term]; Ref 3]) |};
+             {| r_attrs := true; r_body := Body Term |};
+             {| r_attrs := false; r_body := Body Term |} ] in
+  exists s, determine_types g = Some s /\
+            map (types s) [0; 1; 2; 3] = [KAbstract; KAbstract; KCommon; KMatch].
 Proof. eexists. split; [vm_compute; reflexivity | reflexivity]. Qed.
-Print Assumptions C03_smoke.
+Print Assumptions C03_kinds_example.
